@@ -59,7 +59,8 @@ def run_case(sizes, pacing, rcvbuf=None):
         box = {}
         th = threading.Thread(target=lambda: box.setdefault("r", conn.send_data(payload)), daemon=True)
         th.start()
-        th.join(20)
+        # send_data legitimately lasts as long as the peer needs to drain the payload: the limit follows the reader's pace
+        th.join(20 + pacing[0] + (size / max(1, pacing[1])) * 0.004)
         ok = box.get("r")
         results.append(ok)
         if ok:
@@ -139,7 +140,7 @@ def bnd_loopback(tier, seed):
         distinct.add((tuple(sizes), pacing))
         accepted, received, results = run_case(sizes, pacing)
         if None in results:
-            fails.add("send-returns", {"sizes": sizes, "pacing": pacing}, "send_data did not return within 20 s")
+            fails.add("send-returns", {"sizes": sizes, "pacing": pacing}, "send_data did not return although the peer had time to drain the payload (20 s + the reader's pace)")
         elif received != accepted:
             k = next((i for i in range(min(len(received), len(accepted))) if received[i] != accepted[i]), min(len(received), len(accepted)))
             fails.add("success-means-delivered", {"sizes": sizes, "reader_delay_s": pacing[0], "read_chunk": pacing[1], "results": results,
@@ -154,7 +155,7 @@ def bnd_loopback(tier, seed):
                                                                 "bytes_arrived": len(received)},
                       "send_data returned True, the connection was then disabled, and the peer did not receive all bytes")
         if ok is None:
-            fails.add("send-returns", {"size": size, "pacing": pacing, "lifecycle": True}, "send_data did not return within 20 s")
+            fails.add("send-returns", {"size": size, "pacing": pacing, "lifecycle": True}, "send_data did not return although the peer had time to drain the payload (20 s + the reader's pace)")
     return {"evaluations": n_eval, "distinct": len(distinct), "failures": list(fails),
             "scope": "payloads 1 B .. 8 MiB (thorough 16 MiB) on loopback sockets, peer reading immediately / after a delay / in small chunks",
             "rule": "distinct = (payload sizes, reader pacing)", "samples": [{"sizes": [8388608], "pacing": [0.5, 65536]}]}
